@@ -163,6 +163,11 @@ class _Limit(object):
         direction is probably wild enough here. The actual
         trimming factor is defined as a parameter.
         """
+        if np.iscomplexobj(der):
+            # np.percentile does not accept complex data: penalize the outliers
+            # of the real and imaginary parts separately.
+            return np.hypot(_Limit._add_error_to_outliers(der.real, trim_fact),
+                            _Limit._add_error_to_outliers(der.imag, trim_fact))
         try:
             if np.any(np.isnan(der)):
                 p25, median, p75 = np.nanpercentile(der, [25,50, 75], axis=0) 
